@@ -37,6 +37,9 @@ class Finding(object):
                 'message': self.msg, 'detail': self.detail}
 
 
+FUNCTION_LOCATIONS = {}      # function name -> (repo-relative file, line) of its definition; filled by facts.Program
+
+
 class Report(object):
     """Collects obligations, findings and coverage for one property run."""
 
@@ -76,6 +79,11 @@ class Report(object):
             if file and file.startswith(REPO + '/'):
                 file = file[len(REPO) + 1:]
             line = node.get('_line')
+        if line is None and function:
+            # a finding about a function as a whole: point at its definition
+            loc = FUNCTION_LOCATIONS.get(function)
+            if loc is not None and (file is None or file == loc[0]):
+                file, line = loc
         f = Finding(self.prop, rule, key, msg, file, line, function, detail)
         for g in self.findings:
             if g.ident() == f.ident():
